@@ -413,7 +413,7 @@ def gamestate_bit_facts(F):
     # default state
     fn = F.fn("<chess::gamestate::GameState as std::default::Default>::default")
     nf = hir.resolve_consts(sym_fn(fn, F), F)
-    ok = nf[0] == "struct" and dict(nf[2]).get("bitfield") == ("lit", 8)
+    ok = nf[0] == "struct" and hir.sym_int(hir.fold(dict(nf[2]).get("bitfield", ("none",)), {})) == 8
     recs.append(("default=no-rights,no-en-passant", ok, fn["path"], hir.fmt(nf, 80)))
     return recs, layout
 
